@@ -1,4 +1,8 @@
 import Pfl
+#print axioms Pfl.RecDescent.rdMatch_of_derives
+#print axioms Pfl.RecDescent.parse_valid
+#print axioms Pfl.RecDescent.parse_refuses_only_nonmembers
+#print axioms Pfl.LL1Lib.parse_valid
 #print axioms Pfl.CFG.treeValid_sound
 #print axioms Pfl.CFG.treeValid_complete
 #print axioms Pfl.CFG.wellFormedT_gen
